@@ -1,4 +1,4 @@
 #!/bin/sh
 # Regenerates harness/c18pg/c18common_test.go from harness/c18mysql/c18common_test.go
 # (the adapter-independent part of the C18 check; only the package clause differs).
-cd "$(dirname "$0")" && sed '1s/^package mysql$/package postgres/' c18common_test.go > ../c18pg/c18common_test.go
+cd "$(dirname "$0")" && sed 's/^package mysql$/package postgres/' c18common_test.go > ../c18pg/c18common_test.go
